@@ -71,7 +71,7 @@ ASSUMPTIONS = [
     "for one-dimensional histograms; two-dimensional histograms are checked by the direct oracle only",
     "Decimal(float) is the exact decimal expansion of the float (Dec.ofDy); Emax/Emin of the decimal context are not reached",
 ]
-RULE = ("per element configuration (48 of them: Count, Sum, DSum, Mean[None|Sum()|DSum()], VarianceMeanCount, Vectorize[Sum|"
+RULE = ("per element configuration (41 of them: Count, Sum, DSum, Mean[None|Sum()|DSum()], VarianceMeanCount, Vectorize[Sum|"
         "Count|Mean|VarianceMeanCount|StoreFilled, dim 1..3, list form, short and long data vectors], StoreFilled, GroupBy["
         "default|group_by|merge], Histogram[1-d, initial bins, make_bins, initial_value; 2-d by the oracle only], Graph[scale, "
         "sort]): EVERY history of up to 4 calls (thorough: up to 5 for the single-accumulator families) over {fill(v1), "
